@@ -545,7 +545,7 @@ def make_data(mod, rng: random.Random, n: int = 6) -> List[list]:
     """Datasets of Event objects of the program's own classes: the empty dataset, an event whose collections are
     all empty, random events nested two levels."""
     counter = itertools.count(1)
-    tags = ["a", "b", "c"]
+    tags = ["a", "b", "c", "a  b", "t\tq"]      # text with runs of blanks and a tab: it must survive every way of supplying a lambda
 
     def trk():
         return mod.Trk(next(counter), rng.randrange(-4, 9), rng.randrange(-3, 5), rng.choice(tags))
@@ -1077,7 +1077,7 @@ class ProgGen:
                 n, _ = r.choice(recs)
                 if self.mode == "callable" and r.random() < 0.5:
                     return "(%s.tag == %s)" % (n, self.capture_of("str", env))
-                return "(%s.tag %s %r)" % (n, r.choice(["==", "!="]), r.choice(["a", "b"]))
+                return "(%s.tag %s %r)" % (n, r.choice(["==", "!="]), r.choice(["a", "b", "a  b", "t\tq", "a b"]))
         if k == 5:
             self.p.features.add("chained-compare")
             return "(%s <= %s < %s)" % (repr(r.randrange(-3, 1)), self.int_expr(env, max(d - 1, 0)), repr(r.randrange(2, 9)))
